@@ -147,9 +147,14 @@ def r2_naming(ctx):
     if fn is None:
         r.missing("t! InterpolatedValue::format_ident")
     else:
-        t = flat(show(fn.body))
-        if not same(t, '{ifvariable{format_ident!("var_{}",ident)}else{format_ident!("comp_{}",ident)}}'):
-            r.viol("R2:t!#format_ident", "t! builds argument setters as %s" % t, file=fn.file, line=fn.line)
+        from rules import absint
+        from rules.absint import AEval, A, B
+        got = {}
+        for variable in (True, False):
+            v = AEval(funcs={}).run_fn(fn, [A("name"), B(variable)])
+            got[variable] = v[1] if not isinstance(v, str) and v[0] == "tok" else (v if isinstance(v, str) else absint.fmt(v))
+        if got != {True: "var_name", False: "comp_name"}:
+            r.viol("R2:t!#format_ident", "t! builds argument setters as %s (expected var_<name> for variables, comp_<name> for components)" % got, file=fn.file, line=fn.line)
         else:
             r.inst("t! format_ident", "var_<name> / comp_<name>")
     c = ast.const(PM, "VAR_COUNT_KEY")
